@@ -86,6 +86,9 @@ func c11Exec(p *harness.Plan) *harness.Outcome {
 		// model: a record becomes visible strictly after its own timestamp
 		want := map[string]string{"pledge": common.NodeStatePledging, "accept": common.NodeStateAccepted, "remove": common.NodeStateRemoved}
 		for _, rec := range m.records {
+			if want[rec.kind] == "" {
+				continue // not a membership record (a mint): no state of its own to look for
+			}
 			id := m.idents[rec.who]
 			for i := 0; i < c.Cfg.Nodes; i++ {
 				n := c.Nodes[i]
